@@ -14,7 +14,7 @@ def alphabet(m):
             for q in (2, -3):
                 evs.append(('submit', p, a, q))
     evs += [('tick', j) for j in range(m.clock, len(bm.INSTANTS))]
-    evs += [('quotes', 0), ('quotes', 1)]
+    evs += [('quotes', 0), ('quotes', 1), ('quotes', 5)]      # 5: B quoted around one cent (orders worth < 0.5)
     return evs
 
 
